@@ -199,6 +199,22 @@ Theorem C51_cable_rest_partial :
 Proof. exact cable_compute_rest. Qed.
 Print Assumptions C51_cable_rest_partial.
 
+(* constructor: with the ball joint at its qpos0 value (identity quaternion) the reference curvature
+   omega0 = subQuat(body_quat, qpos0 quaternion of the body's BALL joint) is the curvature measured by
+   Compute, so a non-flat cable built by the constructor exerts no force at qpos0 -- whatever other
+   (slide / hinge) joints the segments carry, since only the ball joint's quaternion enters *)
+Theorem C51_cable_omega0_rest :
+  forall bq : quat R, cable_omega0 false true bq quatId = curvature (quatDiff bq quatId false).
+Proof. exact omega0_is_rest_curvature. Qed.
+Print Assumptions C51_cable_omega0_rest.
+
+Theorem C51_cable_rest_at_qpos0 :
+  forall (b0 : @CBody R) (rest : list (@CBody R)) (qfrc : list R),
+    (forall b : @CBody R, In b rest -> c_jq b = quatId /\ c_w0 b = cable_omega0 false true (c_bq b) quatId) ->
+    cable_compute (b0 :: rest) qfrc = qfrc.
+Proof. exact cable_rest_at_qpos0. Qed.
+Print Assumptions C51_cable_rest_at_qpos0.
+
 (* non-vacuity of the stress law: away from the reference along a stiff direction the stress is not 0 *)
 Theorem C51_cable_stress_nonrest :
   forall (k0 k1 k2 len : R) (q : quat R) (w0 : vec3 R),
